@@ -28,7 +28,7 @@ def run_property(prop, tier, quiet=False):
     except core.DefectFound as e:
         # the interpretation met a definite defect (uninitialised read): a verdict, reported like any rule instance; the
         # rules that would have run after it did not (the first defect of this kind ends the run)
-        ctx.rule("UNINIT-READ", "no slot of an array allocated with np.empty is read before a store reaches it (met while interpreting a function for another rule)", 0).fail(
+        ctx.rule(e.rule_id, e.rule_desc, 0).fail(
             "%s::%s" % (e.file.rsplit("/", 1)[-1], e.function), e.file, e.function, e.line, e.construct, e.message)
     except core.AnalysisError as e:
         # the analysis could not be completed.  Violations that rules had already decided stand (a rule's verdict does
